@@ -62,12 +62,15 @@ PROPS = {
                     "(behind comments that end the line it is the indent helper's token).",
         not_decided=["that every trivia-construction site in functions outside the units uses these helpers"],
         assumptions=["TokenType::tabs(n)/spaces(n) print n tabs/spaces (class A)", "indent arithmetic does not overflow usize (nesting depth x indent_width), stated as a precondition"]),
-    "C11": dict(units=["ctx", "tok", "args"], bounded=[dict(kind="lib", witnesses="C11_WITNESSES"), dict(kind="corpus", kinds=["callparens"], configs="C11")],
+    "C11": dict(units=["ctx", "tok", "args", "bodies"], bounded=[dict(kind="lib", witnesses="C11_WITNESSES"), dict(kind="corpus", kinds=["callparens"], configs="C11")],
         explanation="get_quote_to_use equals the quote-choice table of the property; should_omit_string/table_parens equal the call_parentheses table; "
                     "create_function_definition/call_trivia produce one space exactly for the option values that name the case. format_call and format_method_call (real text): the arguments get the form format_function_args decides "
-                    "and are separated from the name by that token (behind comments that end the line: indented on their own line; behind a line comment on a method name: on a new line).",
-        not_decided=["the function-definition formatters (space after the name in definitions) are outside the units: only the constructor create_function_definition_trivia is proved",
-                     "format_function_call's computation of the `obscure` flag for each suffix (next suffix is an index or method call): not under contract"],
+                    "and are separated from the name by that token (behind comments that end the line: indented on their own line; behind a line comment on a method name: on a new line). "
+                    "format_local_function / format_function_declaration / format_anonymous_function (unit bodies, real text): the token appended behind the name (behind `function`) is create_function_definition_trivia's. "
+                    "format_suffix / format_function_call (real text, the loop over the peekable suffixes with an inductive invariant): every suffix of a call chain comes out in the form the call_parentheses table gives for it, "
+                    "with the `obscure` flag computed from the suffix that follows (an index or a method call keeps the parentheses), same arguments, same number and order of suffixes.",
+        not_decided=["format_function_name (the dotted names of `function a.b:c`) is a stub in the unit bodies: that the definition trivia is appended to its last token is the trait wrapper's assumption",
+                     "format_function_call: the two computations that decide whether the chain hangs (a loop looking for comments, a trial formatting against the column width) are holes that yield a bool; a hole whose text could leave the function (`return`, `?`) is refused"],
         assumptions=[]),
     "C13": dict(units=["cli_io", "diff"], bounded=[dict(kind="cli", scenario="check_never_writes")],
         explanation="format_file (real text): the fs::write call carries the precondition may_write(check=false, data = format_code output of the text read from that path, data != that text); "
